@@ -22,9 +22,9 @@ from fractions import Fraction
 
 from ..bits import Bits, BitEval, LinV, NeedPred, NeedSplit, Pred, Region, Top, eval_regions
 from ..ctor import init_attrs
-from ..facts import atoms, call_is, meth_is, strip
+from ..facts import simplify, atoms, call_is, meth_is, strip
 from ..model import AnalysisError, norm
-from ..terms import is_const, pc_term, show, subterms, summarize
+from ..terms import is_const, pc_term, replace, show, subterms, summarize
 
 CMD = "msmart.device.AC.command"
 SR = f"{CMD}.StateResponse"
@@ -135,6 +135,9 @@ def run(ctx):
     defaults = init_attrs(prog, prog.cls(SR))
     ctx.fn(f"{SR}.__init__")
 
+    # an attribute _parse leaves alone on some path still holds what __init__ stored
+    untouched = {("attr", ("param", self_p), a): v for a, v in defaults.items()}
+
     def leaf(tm, be):
         if tm[0] == "ref":
             n = tm[1]
@@ -163,7 +166,7 @@ def run(ctx):
     for pc, _t, node, rst in s.returns:
         terms = {}
         for a in attr_names:
-            terms["A:" + a] = rst.env.get(f"{self_p}.{a}", defaults.get(a, ("const", None)))
+            terms["A:" + a] = replace(rst.env.get(f"{self_p}.{a}", defaults.get(a, ("const", None))), untouched)
         for a, e in EXPECTED.items():
             terms["E:" + a] = e
         terms["PC"] = pc_term(pc)
@@ -358,13 +361,15 @@ def run(ctx):
         raw = res_attr("fan_speed")
         ctor = ("call", ("func", f"{AC}.FanSpeed"), (raw,), ())
         vv = strip(v)
-        if vv[0] == "ite" and strip(vv[1]) == ("attr", ("param", sp), "_supports_custom_fan_speed"):
+        flag = ("attr", ("param", sp), "_supports_custom_fan_speed")
+        if vv[0] == "ite" and any(strip(x) == flag for x in subterms(vv)):
             def norm_leaf(x):
                 if call_is(x, f"{AC}.FanSpeed") and len(x[2]) == 1 and strip(x[2][0]) == raw:
                     return ctor
                 return x
-            custom = {norm_leaf(x) for x in leaves(vv[2])}
-            other = leaves(vv[3])
+            # the value under each setting of the capability flag (however the branches are nested / ordered)
+            custom = {norm_leaf(x) for x in leaves(simplify(vv, [flag]))}
+            other = leaves(simplify(vv, [("un", "not", flag)]))
             gfv_ok = len(other) == 1 and all(call_is(x, "msmart.utils.MideaIntEnum.get_from_value") and x[2][0] == ("global", f"{AC}.FanSpeed")
                                              and strip(x[2][-1]) == raw for x in other)
             fan_ok = custom == {ctor, raw} and gfv_ok
